@@ -10,6 +10,10 @@ From Coupe Require Import Lib.Prelude Model.ArcSwap Proofs.ArcSwapCut Proofs.Arc
   Proofs.ArcSwapAcct Proofs.ArcSwapSafe.
 Open Scope Z_scope.
 
+Section WithW.
+Context {W : wops}.
+
+
 Lemma akind_eqb_eq a b : akind_eqb a b = true -> a = b.
 Proof. destruct a, b; cbn; intros; congruence. Qed.
 
@@ -55,7 +59,7 @@ Lemma decide_pc cf tmax w v ip b w' : decide cf tmax w v ip b = Some w' ->
 Proof.
   unfold decide. destruct b as [bt bg]. destruct (bg <=? 0); [intros [= <-]; now left|].
   destruct (nth_opt (cf_vw cf) v), (nth_opt (w_pw w) bt), (nth_opt tmax bt); try discriminate.
-  destruct (_ <? _); intros [= <-]; [now left|right; exists bt, bg; reflexivity].
+  destruct (w_ltb _ _); intros [= <-]; [now left|right; exists bt, bg; reflexivity].
 Qed.
 
 (* one accepted event: the automaton follows the worker *)
@@ -292,7 +296,7 @@ Theorem replay_trace_mutex st0 tr st : Forall (fun x => (x < cf_k cf)%nat) p0 ->
   trace_mutex g (repeat TIdle tc) tr = true.
 Proof.
   intros Hids Hi Hr. unfold trace_mutex.
-  assert (Hinv : ginv cf p0 st0) by (eapply (reach_ginv cf p0 Hg len_p0 Hids st0 [] st0); eauto).
+  assert (Hinv : ginv cf p0 st0) by (destruct Hg as [G1 G2 G3]; eapply init_ginv; eauto).
   eapply replay_windows_ok; [exact Hinv| |exact Hr].
   unfold init_state in Hi. destruct (thread_max cf _); [|discriminate]. injection Hi as <-.
   split; cbn [g_ws].
@@ -313,3 +317,5 @@ Proof.
   rewrite (replay_trace_mutex st0 tr st Hids Hi Hr) in Hf. discriminate.
 Qed.
 End Trace.
+
+End WithW.
